@@ -290,6 +290,14 @@ pub fn typed_check(key: &[u8], raw: &[u8], si: &SchemeInfo, signer: usize) -> TR
                 TRes::Bad(vec![InvalidRlpData])
             }
         }
+        b"client" => {
+            // EIP-7636: a list of 2 or 3 strings. The statements do not say how strictly the entry is
+            // vetted on the way in: anything else may be stored (the getter then reports nothing) or refused.
+            match rlp::as_str_list(raw) {
+                Some(l) if l.len() == 2 || l.len() == 3 => TRes::Fine,
+                _ => TRes::Either(vec![InvalidRlpData]),
+            }
+        }
         k if PK_NAMES.contains(&k) => {
             if k == si.key_name.as_slice() && raw == si.pk_raw[signer].as_slice() {
                 TRes::Fine
